@@ -15,7 +15,13 @@ EXTENDS Protocol, Json, IOUtils
 
 Rec == ndJsonDeserialize(IOEnv.TRACE)
 Kinds == {"f", "quiet", "end"}
-InitSt(e) == [base |-> IF "consts" \in DOMAIN e THEN e.consts.base ELSE 0, ep |-> <<>>]
+\* tally[d][role][cmd]: frames submitted / received per role in this scenario (conservation at the end)
+Zero == [c \in 0..10 |-> 0]
+InitSt(e) == [base |-> IF "consts" \in DOMAIN e THEN e.consts.base ELSE 0, ep |-> <<>>,
+              txc |-> Zero, rxc |-> Zero, txs |-> Zero, rxs |-> Zero]
+Bump(f, c) == IF c \in DOMAIN f THEN [f EXCEPT ![c] = @ + 1] ELSE f
+Tally(s, e) == IF e.d = "tx" THEN (IF e.client = 1 THEN [s EXCEPT !.txc = Bump(@, e.cmd)] ELSE [s EXCEPT !.txs = Bump(@, e.cmd)])
+               ELSE (IF e.client = 1 THEN [s EXCEPT !.rxc = Bump(@, e.cmd)] ELSE [s EXCEPT !.rxs = Bump(@, e.cmd)])
 
 TOk(s)      == [ok |-> TRUE, st |-> s, why |-> "", dev |-> "", site |-> ""]
 TNo(s, why) == [ok |-> FALSE, st |-> s, why |-> why, dev |-> "", site |-> ""]
@@ -27,11 +33,19 @@ Apply(s, e) ==
             ELSE LET p == IF e.sess \in DOMAIN s.ep THEN s.ep[e.sess] ELSE Init(e.client = 1)
                      fr == [cmd |-> e.cmd, sid |-> e.sid, len |-> e.len]
                      r == IF e.d = "rx" THEN Rx(p, fr) ELSE Tx(p, fr)
-                 IN  IF r.ok THEN TOk([s EXCEPT !.ep = Put(@, e.sess, r.st)]) ELSE TNo(s, r.prop \o ": " \o r.why)
+                 IN  IF r.ok THEN TOk([Tally(s, e) EXCEPT !.ep = Put(@, e.sess, r.st)]) ELSE TNo(s, r.prop \o ": " \o r.why)
       [] e.ev = "quiet" ->
             IF e.sess \in DOMAIN s.ep /\ s.ep[e.sess].hbRespTx < s.ep[e.sess].hbReqRx - 1 THEN TNo(s, "ext: a keep-alive request was left unanswered on a quiet session")
             ELSE TOk(s)
-      [] e.ev = "end" -> IF e.panics = 0 THEN TOk(s) ELSE TNo(s, "a task panicked")
+      \* conservation once everything has landed: what the clients' tasks submitted arrived at the servers and vice
+      \* versa (stream frames and settings; keep-alive exchanges never stop and are not counted)
+      [] e.ev = "end" ->
+            IF e.panics # 0 THEN TNo(s, "a task panicked")
+            ELSE IF \E c \in {1, 2, 3, 4} : s.txc[c] # s.rxs[c]
+                 THEN TNo(s, "C11: a frame submitted on a live client session never reached the server (left in the initial buffer or dropped)")
+            ELSE IF \E c \in {2, 3, 7} : s.txs[c] # s.rxc[c]
+                 THEN TNo(s, "ext: a frame submitted on a live server session never reached the client")
+            ELSE TOk(s)
       [] OTHER -> TNo(s, "unknown event")
 
 NonTrivial(e, r) == r.ok /\ e.ev = "f" /\ e.cmd \in {Syn, Synack, Fin}
